@@ -36,6 +36,11 @@ def run(check: Check, repo: Repo, tier: str) -> None:
     X.twin_handlers(check, repo, [repo.mod("execution.execute")])
     X.scope_threading(check, repo, [repo.mod("execution.execute"), repo.mod("execution.values")])
     X.option_independent(check, repo)
+    from rules import stream_rules as T5
+
+    T5.field_lookup_by_name(check, repo)
+    T5.stream_predicate(check, repo)
+    T5.per_event_pure(check, repo)
     check.floors = {k: v for k, v in check.floors.items() if k != "TWIN-HANDLERS"}
     check.floor("TWIN-HANDLERS", 1, "twins in execute.py")
     from rules import type_witness as TW
